@@ -94,11 +94,44 @@ class MatEngine:
                 return (('M', 'Toeplitz'), ('len', t[2][0]), ('len', t[2][0]))
             if p == 'std::vec::from_elem':
                 return self.kernel(f, t, ix, leafnames, depth)
+            if p in self.prog.pdb.bodies and depth < 4:
+                rv = self._inline(t)
+                if rv is not None:
+                    return self.mat(f, rv, ix, leafnames, depth + 1)
+        if k == 'field' and tag(t[1]) == 'call' and t[1][1] in self.prog.pdb.bodies and depth < 4:
+            # component of a tuple returned by an in-crate helper
+            rv = self._inline(t[1])
+            if rv is not None and tag(rv) == 'agg' and rv[1] == 'tuple' and t[2] < len(rv[3]):
+                return self.mat(f, rv[3][t[2]], ix, leafnames, depth + 1)
         if k == 'local':
             vals = [s.value for s in f.stores() if s.target == t]
             if len(vals) == 1:
                 return self.mat(f, vals[0], ix, leafnames, depth)
         raise MatProblem('no matrix transfer function for %s' % show(t)[:80])
+
+    def _inline(self, call):
+        """the single return value of an in-crate helper with its parameters replaced by the caller's argument terms; None when the
+        helper has several return sites or its value depends on callee-local state (multi-definition locals, loop items)"""
+        from .ir import map_term
+        g = self.prog.func(call[1])
+        if g is None:
+            return None
+        rets = g.return_values()
+        if len(rets) != 1:
+            return None
+        args = call[2]
+        bad = []
+
+        def sub(n):
+            if tag(n) == 'arg':
+                if 1 <= n[1] <= len(args):
+                    return args[n[1] - 1]
+                bad.append(n)
+            elif tag(n) in ('local', 'item', 'upvar'):
+                bad.append(n)
+            return n
+        out = map_term(rets[0], sub)
+        return None if bad else out
 
     def _same(self, ix, f, a, b, bb=None):
         a, b = strip_casts(a), strip_casts(b)
